@@ -222,33 +222,34 @@ Section VcomEq.
     { cbn [p_commit vcom_proto vcom_commit]. rewrite <- Lx, Fit. reflexivity. }
     intro c. cbn [p_respond p_extract vcom_proto vcom_respond]. unfold neqb.
     rewrite La, Lt, Lr, !Nat.eqb_refl, Fit. cbn [negb orb]. eexists. split; [reflexivity|].
-    set (tis := walk (fun i (_ : K * K) rti ri => (i, resp1 c ri rti)) rts ris 0%N (combine alphas xis)).
-    set (sis := map2 (resp1 c) xis alphas).
-    assert (Ls : len sis = len xis) by (unfold sis; rewrite map2_length, La; apply Nat.min_id).
+    remember (walk (fun i (_ : K * K) rti ri => (i, resp1 c ri rti)) rts ris 0%N (combine alphas xis)) as tis eqn:Etis.
+    remember (map2 (resp1 c) xis alphas) as sis eqn:Esis.
+    assert (Ls : len sis = len xis) by (rewrite Esis, map2_length, La; apply Nat.min_id).
     assert (Lc : len (combine alphas xis) = len xis) by (rewrite combine_length, La; apply Nat.min_id).
     assert (Hits : forall k, hit rts ris k = hit (vc_comms s) ris k).
     { intro k. unfold hit. destruct (aget ris k); [|destruct (aget rts k), (aget (vc_comms s) k); reflexivity].
       destruct (aget rts k) eqn:E1, (aget (vc_comms s) k) eqn:E2; auto.
       - apply D2 in E2. congruence. - apply D2 in E1. congruence. }
     assert (Ltis : len tis = len (vc_comms s)).
-    { rewrite <- Hl. unfold tis. apply walk_length_eq; [congruence|]. intros k _. apply Hits. }
+    { rewrite <- Hl, Etis. apply walk_length_eq; [congruence|]. intros k _. apply Hits. }
     assert (Ht : forall k, (0 <= k < 0 + N.of_nat (len xis))%N ->
        aget tis k = match aget rts k, aget ris k with Some a, Some b => Some (resp1 c b a) | _, _ => None end).
-    { intros k Hk. unfold tis. rewrite (aget_walk (fun rti ri => resp1 c ri rti)); [reflexivity|]. rewrite Lc. exact Hk. }
+    { intros k Hk. rewrite Etis, (aget_walk (fun rti ri => resp1 c ri rti)); [reflexivity|]. rewrite Lc. exact Hk. }
     assert (Lp : len (vcom_points s c sis tis) = len (vc_comms s)).
     { rewrite <- Hl. unfold vcom_points. apply walk_length_eq; [congruence|]. intros k Hk. rewrite Ls in Hk.
       unfold hit. rewrite (Ht k Hk). destruct (aget (vc_comms s) k) eqn:E2; [|reflexivity].
       destruct (aget ris k) eqn:E3; [|destruct (aget rts k); reflexivity].
       destruct (aget rts k) eqn:E1; [reflexivity|]. apply D2 in E1. congruence. }
-    unfold vcom_extract, vcom_guard, neqb. destruct sis as [|s0 sis'] eqn:Es; [cbn in Ls; lia|]. rewrite <- Es in *.
-    rewrite <- Lx, Ls, Ltis, !Nat.eqb_refl, Fit. cbn [negb orb].
     assert (Lle : Nat.ltb (len xis) (len (vc_comms s)) = false).
     { apply Nat.ltb_ge. rewrite <- Hl. clear. generalize 0%N. induction xis as [|x xis IH]; intro i; cbn [walk len]; [lia|].
       destruct (aget (vc_comms s) i), (aget ris i); cbn [len]; specialize (IH (i + 1)%N); lia. }
-    rewrite Lle. cbn [negb]. rewrite Lp, Nat.eqb_refl. cbn [negb]. f_equal. f_equal.
-    - unfold vcom_point. rewrite Es. unfold sis. rewrite resp1_is_generic. unfold m_respond.
+    assert (Gd : vcom_guard s sis tis = true).
+    { unfold vcom_guard, neqb. rewrite <- Lx, Ls, Ltis, !Nat.eqb_refl, Fit, Lle.
+      destruct sis; [cbn in Ls; lia|reflexivity]. }
+    unfold vcom_extract, neqb. rewrite Gd, Lp, Nat.eqb_refl. cbn [negb]. f_equal. f_equal.
+    - unfold vcom_point. rewrite Esis, resp1_is_generic. unfold m_respond.
       rewrite msm_vsub by (rewrite vscale_length; congruence). rewrite msm_vscale, Hc. unfold resp1. mod_norm.
-    - unfold vcom_points. rewrite Es. unfold sis. apply vcom_points_complete; auto; congruence.
+    - unfold vcom_points. rewrite Esis. exact (vcom_points_complete s c rts ris tis D1 D2 xis alphas 0%N La Ht Hr).
   Qed.
 
   (** before the repair: with [comms] keyed {0} and a response map keyed {1} (same size) the guard
